@@ -40,20 +40,21 @@ type JobResult struct {
 }
 
 type Options struct {
-	Property  string
-	Tier      string
-	Seed      int64
-	Workers   int
-	RepoDir   string
-	VerifDir  string
-	TimeoutMs int
-	Solver    string
-	Verbose   bool
-	OnlyCase  string // substring filter on job key
-	MaxJobs   int
-	NoReplay  bool
-	CrossVal  int // concrete cross-validation samples per job (0 = none)
-	OneShotMs int // timeout of escalated one-shot solver runs
+	Property      string
+	Tier          string
+	Seed          int64
+	Workers       int
+	RepoDir       string
+	VerifDir      string
+	TimeoutMs     int
+	Solver        string
+	Verbose       bool
+	OnlyCase      string // substring filter on job key
+	MaxJobs       int
+	NoReplay      bool
+	CrossVal      int           // concrete cross-validation samples per job (0 = none)
+	OneShotMs     int           // timeout of escalated one-shot solver runs
+	OneShotBudget time.Duration // per job and worker
 }
 
 type Plan struct {
@@ -236,7 +237,7 @@ func RunJobs(w *symex.World, jobs []Job, opt Options, known map[string]bool) []*
 					}
 					q0, t0, s0, u0, k0, e0 = sess.Queries, sess.Time, sess.SatN, sess.UnsatN, sess.UnkN, len(sess.Errors)
 					h, herr := w.Harness(j.Harness)
-					ex = &symex.Explorer{Prog: w.Prog, World: w, Harness: h, Case: normCase(j.Case), St: st, Sol: sess, Known: known, Ring: j.Ring, OneShotTimeoutMs: opt.OneShotMs}
+					ex = &symex.Explorer{Prog: w.Prog, World: w, Harness: h, Case: normCase(j.Case), St: st, Sol: sess, Known: known, Ring: j.Ring, OneShotTimeoutMs: opt.OneShotMs, OneShotBudget: opt.OneShotBudget}
 					ex.Init()
 					if herr != nil {
 						ex.Incon = append(ex.Incon, symex.Inconclusive{What: herr.Error()})
